@@ -459,4 +459,61 @@ theorem visible_raw (l : List Char) (h : ESC ∉ l) : visible l = l := by
   | nil => rfl
   | cons c cs ih => simp only [List.map_cons, Function.comp] at ih ⊢; rw [ih (fun m => h (List.mem_cons_of_mem _ m))]
 
+/-! ### Who asks for the space fill -/
+
+theorem decisionExpr_mode (cfg : Cfg) (bg : BgShouldFill) (e : String) (m : Option FillMethod)
+    (h : decisionExpr cfg bg e = .ok m) : m = none ∨ m = bgMode bg := by
+  unfold decisionExpr at h
+  split at h
+  · simp only [Except.ok.injEq] at h; exact Or.inl h.symm
+  split at h
+  · simp only [Except.ok.injEq] at h; exact Or.inr h.symm
+  split at h
+  · simp only [Except.ok.injEq] at h
+    subst h
+    cases cfg.bgExtends <;> simp
+  · exact absurd h (by simp)
+
+theorem decisionGo_mode (cfg : Cfg) (hasBg : Bool) (bg : BgShouldFill) (arms : List (List String × String))
+    (m : Option FillMethod) (h : decisionGo cfg hasBg bg arms = .ok m) : m = none ∨ m = bgMode bg := by
+  induction arms with
+  | nil => simp [decisionGo] at h
+  | cons a rest ih =>
+    obtain ⟨p, e⟩ := a
+    simp only [decisionGo] at h
+    split at h
+    · exact absurd h (by simp)
+    · exact decisionExpr_mode cfg bg e m h
+    · exact ih h
+
+/-- A caller that does not ask for the space fill never gets it. -/
+theorem noSpaceFill_of_request (cfg : Cfg) (inp : Input) (h : inp.bg ≠ .with_ .spaces) : noSpaceFill cfg inp = true := by
+  unfold noSpaceFill
+  split
+  · rename_i fs hfd
+    exfalso
+    unfold fillDecision at hfd
+    split at hfd
+    · exact absurd hfd (by simp)
+    · split at hfd
+      · exact absurd hfd (by simp)
+      · split at hfd
+        · split at hfd
+          · exact absurd hfd (by simp)
+          · rename_i m hgo
+            simp only [Except.ok.injEq, Prod.mk.injEq] at hfd
+            obtain ⟨hm, _⟩ := hfd
+            subst hm
+            rcases decisionGo_mode _ _ _ _ _ hgo with h1 | h1
+            · exact absurd h1 (by simp)
+            · cases hb : inp.bg with
+              | no => rw [hb] at h1; simp [bgMode] at h1
+              | with_ mm =>
+                rw [hb] at h1
+                simp only [bgMode, Option.some.injEq] at h1
+                subst h1
+                exact h hb
+        · exact absurd hfd (by simp)
+  · rfl
+
 end ColorOnlyPaintProofs
